@@ -62,6 +62,11 @@ void harness(void) {
     H3Index a = in_a = mkcell(RES, "in_a"), b = in_b = mkcell(RES, "in_b");
     int dir = in_d = vp_int("in_d");
     __CPROVER_assume(dir >= 1 && dir <= 6);
+#ifdef PENTBC
+    // restriction for the finer resolutions: origin on a pentagon base cell, target on another base cell (where the
+    // unfolding across base cells has its special cases)
+    __CPROVER_assume(spec_is_pent_bc((int)((a >> 45) & 127)) && ((a >> 45) & 127) != ((b >> 45) & 127));
+#endif
     VP_EXCLUDE();
     int rot = 0; H3Index n = 0;
     H3Error e = h3NeighborRotations(b, (Direction)dir, &rot, &n);
